@@ -293,3 +293,81 @@ func filledShape(kind int, a int64, b string, c []byte) any {
 	}
 	return &IfaceShape{F: &g}
 }
+
+// ---- more extension profile kinds for W-REG
+
+// XOwnClaims: extension over profile 2 whose profile is (also) announced in a
+// JSON member of its own, found by field name by GetProfileJSONTag.
+type XOwnClaims struct {
+	psatoken.P2Claims
+	Profile *string `json:"own-profile"`
+}
+
+func (o *XOwnClaims) Validate() error {
+	if err := psatoken.ValidateClaims(o); err != nil {
+		return err
+	}
+	if o.Profile == nil || *o.Profile != o.CanonicalProfile {
+		return psatoken.ErrWrongProfile
+	}
+	return nil
+}
+
+func (o XOwnClaims) MarshalCBOR() ([]byte, error) { //nolint:gocritic
+	return encoding.SerializeStructToCBOR(xem, &o)
+}
+
+func (o *XOwnClaims) UnmarshalCBOR(data []byte) error {
+	if err := encoding.PopulateStructFromCBOR(xdm, data, o); err != nil {
+		return err
+	}
+	// the own member has no CBOR form: it mirrors the EAT profile claim
+	if p, err := o.P2Claims.Profile.Get(); err == nil {
+		o.Profile = &p
+	}
+	return nil
+}
+
+func (o XOwnClaims) MarshalJSON() ([]byte, error) { //nolint:gocritic
+	return encoding.SerializeStructToJSON(&o)
+}
+
+func (o *XOwnClaims) UnmarshalJSON(data []byte) error {
+	return encoding.PopulateStructFromJSON(data, o)
+}
+
+type XOwnProfile struct{ N string }
+
+func (p XOwnProfile) GetName() string { return p.N }
+func (p XOwnProfile) GetClaims() psatoken.IClaims {
+	ep := eat.Profile{}
+	if err := ep.Set(p.N); err != nil {
+		panic(err)
+	}
+	n := p.N
+	return &XOwnClaims{P2Claims: psatoken.P2Claims{
+		Profile:          &ep,
+		SwComponents:     &psatoken.SwComponents[*psatoken.SwComponent]{},
+		CanonicalProfile: p.N,
+	}, Profile: &n}
+}
+
+// NoProfClaims has no identifiable profile field at all (its only field is an
+// embedded interface holding nothing): registration must fail.
+type NoProfClaims struct{ psatoken.IClaims }
+
+type NoProfProfile struct{ N string }
+
+func (p NoProfProfile) GetName() string            { return p.N }
+func (p NoProfProfile) GetClaims() psatoken.IClaims { return &NoProfClaims{} }
+
+// NoTagClaims has a field called Profile, but without a json tag.
+type NoTagClaims struct {
+	psatoken.IClaims
+	Profile *string
+}
+
+type NoTagProfile struct{ N string }
+
+func (p NoTagProfile) GetName() string            { return p.N }
+func (p NoTagProfile) GetClaims() psatoken.IClaims { return &NoTagClaims{} }
